@@ -61,6 +61,18 @@ def entries_close(observed, expected, scale, ulps=4):
     return None
 
 
+def representable(expected_entries):
+    """False when the real-number result cannot be held in floats as a
+    well-formed list: some interval's endpoints round to the same float (an
+    interval shorter than the float resolution at its new position).  Such
+    cases are outside what any float implementation can deliver and are
+    skipped, not judged."""
+    for e in expected_entries:
+        if len(e) == 3 and not (float(e[0]) < float(e[1])):
+            return False
+    return True
+
+
 def fmt(x):
     if isinstance(x, F):
         return "%r (exact %s)" % (float(x), x)
